@@ -104,7 +104,8 @@ def digit_run(rng):
     elif r < 0.97:
         n = rng.choice([28, 29, 30, 31, 60, 100])
     else:
-        n = rng.choice([100, 500, 2000, 5000])
+        # 4300 digits is CPython's default limit for int <-> text
+        n = rng.choice([100, 500, 2000, 4299, 4301, 5000])
     return "".join(rng.choice("0123456789") for _ in range(n))
 
 
